@@ -71,6 +71,7 @@ def job_sensor(j):
         d = o[1]
         if list(d) != [s.id_]:
             bad(f'every-id-present/{t0.family}/{tname(s)}', 'result lacks the sensor id', b.hex(), dict(keys=list(d)))
+            continue
         ref = refdec.decode(s, b)
         if ref is refdec.NOVALUE:
             cnt[1] += 1
